@@ -22,7 +22,9 @@ P = "Sympler.Threads."
 NAMES = ["C20_partition", "C20_round_robin", "C20_assignment", "C20_partition_links", "C20_partition_pairs", "C20_interleaving", "C20_interleaving_order",
          "C20_run_independent", "C20_sequential_isInterleaving", "C20_merge", "C20_merge_pointwise", "C20_steps", "C20_steps_every", "C20_equal",
          "C20_thread_count_independent", "C20_layout_disjoint", "Example.C20_unmerged_leak_witness"]
-MODULES = ["Sympler.Threads", "Sympler.ThreadsLemmas", "Props.C20"]
+MODULES = ["Sympler.Threads", "Sympler.ThreadsLemmas", "Sympler.Gen.ThreadsGen", "Props.C20", "Props.ThreadsBridge"]
+BR = ["Sympler.Threads.Bridge_counter", "Sympler.Threads.Bridge_merge_sites"]
+TR = "translator t_threads (OpenMP branch: round-robin counter of activateCellLink, mergeCopies statements of PairParticleScalar/Vector and IntegratorVelocityVerlet)"
 
 
 def theorem_names():
@@ -39,7 +41,13 @@ def run(ctx):
     ctx.oblige("hooked build of /repo (serial flavour)", ok, out[-300:])
     ok2, out2 = common.ensure_build("omp", targets=("sympler",))
     ctx.oblige("hooked build of /repo (OpenMP flavour, -fopenmp)", ok2, out2[-300:])
-    common.lean_obligations(ctx, ["Props.C20", "Sympler.Threads", "Sympler.DynDriver", "symdrv"], ["Props.C20"], theorem_names(), MODULES)
+    try:
+        import t_threads
+        common.write_if_changed(os.path.join(common.LEAN, "Sympler/Gen/ThreadsGen.lean"), t_threads.generate(common.REPO))
+        ctx.oblige(TR, True)
+    except Exception as ex:
+        ctx.oblige(TR, False, repr(ex))
+    common.lean_obligations(ctx, ["Props.C20", "Props.ThreadsBridge", "Sympler.Threads", "Sympler.DynDriver", "symdrv"], ["Props.C20", "Props.ThreadsBridge"], theorem_names() + BR, MODULES)
     n, threads, repeat = (12, "1,2,4,8,16", 1) if not ctx.thorough else (200, "1,2,3,4,8,16", 3)
     workers = 6
     per = (n + workers - 1) // workers
